@@ -282,7 +282,9 @@ func c14Envs() []c14EnvMaker {
 		return func() (*env.Env, *[]string) {
 			e := env.NewEnv()
 			log := &[]string{}
-			e.DefineType("T", typ)
+			if typ != nil { // environment D leaves T undefined: runs that need it fail there
+				e.DefineType("T", typ)
+			}
 			e.Define("K", k)
 			e.Define("L", l)
 			e.Define("fn", func(x interface{}) interface{} { *log = append(*log, tag+":"+c10ProjT(x)); return fnRet(x) })
@@ -297,11 +299,13 @@ func c14Envs() []c14EnvMaker {
 		mk("A", int64(0), int64(2), []interface{}{int64(1), int64(2)}, func(x interface{}) interface{} { return x }),
 		mk("B", float64(0), 2.5, []interface{}{"p", "q", "r"}, func(x interface{}) interface{} { return []interface{}{x} }),
 		mk("C", "", "s", []interface{}{}, func(x interface{}) interface{} { return nil }),
+		mk("D", nil, int64(4), []interface{}{int64(9)}, func(x interface{}) interface{} { return x }),
 	}
 }
 
 var c14VariantPrograms = []string{
-	"a = make(struct { A T }); a.A = K; a", "x = make([]T, 1); x[0] = K; x", "make(T)", "p = new(T); *p", "[]T{K}", "map[string]T{\"k\": K}", "make(map[T]bool)",
+	"a = make(struct { A T }); a.A = K; a", "x = make([]T, 1); x[0] = K; x", "x = make([][]T, 1); x", "[][]T{[K]}", "make(map[string][][]T)", "make([][][]T, 2)",
+	"make(struct { A [][]T, B map[string][]T })", "make(T)", "p = new(T); *p", "[]T{K}", "map[string]T{\"k\": K}", "make(map[T]bool)",
 	"c = make(chan T, 1); c <- K; (<- c)", "fn(K)", "f = func(v) { return fn(v) }; f(K)", "func g() { defer fn(K); return fn0() }; g()", "r = []; for i in L { r += fn(i) }; r",
 	"M.v", "sf(K)", "[sf(1), fn0()]", "K + K", "x = K; x += K; [x, fn(x)]", "make(type U, K); make(U)", "func h(a) { return make(struct { F T, G []T }) }; h(1)",
 	"switch K {\ncase fn0(): fn(1)\ndefault: fn(2)\n}", "t = make([]T, 0); t += [K]; t", "s = 0; for i = 0; i < 3; i++ { s += len(L); fn(i) }; s",
@@ -342,7 +346,7 @@ func c14Variants() (problems []string, runs int) {
 			fresh, _ := ankoparser.ParseSrc(src)
 			solo[i] = c14RunIn(mk, fresh)
 		}
-		for _, order := range [][]int{{0, 1, 2}, {2, 0, 1}, {1, 1, 0}} {
+		for _, order := range [][]int{{0, 1, 2}, {2, 0, 1}, {1, 1, 0}, {3, 0, 3, 1}, {3, 3, 2}} {
 			for _, i := range order {
 				runs++
 				if got := c14RunIn(envs[i], shared); got != solo[i] {
